@@ -499,6 +499,8 @@ async fn fn_independent_pre(
         debug!("Using preprocessing without trusted dealer, generating delta and random shares");
         random_shares = FileOrMemBuf::new(ctx.tmp_dir, secret_bits)?;
         delta = Delta(random());
+        #[cfg(feature = "__verif")]
+        crate::verif::probe_u128s("delta", &[delta.0]);
         shared_two_by_two = Some(shared_rng_pairwise(channel, p_own, p_max).await?);
         multi_shared_rand = Some(shared_rng(channel, p_own, p_max).await?);
         for chunk_size in chunk_size_iter(secret_bits, ctx.random_shares_batch_size()) {
@@ -686,6 +688,8 @@ async fn garble(
                         .next()
                         .ok_or(MpcError::MissingAndShareForInst(w))??;
                     let r = r_sig ^ r_gamma;
+                    #[cfg(feature = "__verif")]
+                    let r = crate::verif::tap_bool("garble_r", r);
                     let mac_r_key_s_0 = &mac_r_sig_key_s_sig ^ &mac_r_gamma_key_s_gamma;
                     let mac_r_key_s_1 = &mac_r_key_s_0 ^ &mac_r_x_key_s_x;
                     let row0 = Share(r, mac_r_key_s_0.clone());
@@ -1042,6 +1046,12 @@ fn evaluate(
                     (s, label)
                 }
             };
+            #[cfg(feature = "__verif")]
+            if let Op::And(_) = inst.op {
+                for (p, l) in label.iter().enumerate() {
+                    crate::verif::probe_u128s("eval_label", &[w as u128, p as u128, l.0]);
+                }
+            }
             values[inst.out] = value;
             labels_eval[inst.out] = label;
         }
